@@ -519,7 +519,15 @@ func init() {
 			"'open; write*k; read*j; close' with at most d deviations from the default schedule; distinct = distinct (response stream, final content) outcomes",
 		Assumptions: []string{"deviation bound d and participant bound W as stated per job", "handler object calls are atomic between their enter and exit points", "map iteration sorted"},
 		Jobs: func(tier string) []reg.Job {
-			return withPolicies(tier, c14Jobs(tier), func(j reg.Job) bool { return j.Args["server"] != "os" })
+			js := withPolicies(tier, c14Jobs(tier), func(j reg.Job) bool { return j.Args["server"] != "os" })
+			// the close barrier at the narrowest seam: the packet manager alone, all programs of reads, writes and closes on two handles
+			n, bound, budget := 4, 3, 100
+			if tier == "thorough" {
+				n, bound, budget = 5, 3, 420
+			}
+			pm := reg.Job{Part: "C02/pm", Build: "instr-w2", Args: map[string]string{"alphabet": "RWrCc", "len": fmt.Sprint(n), "strategy": "db", "bound": fmt.Sprint(bound)}, Shards: 16, BudgetS: budget,
+				Label: fmt.Sprintf("packet manager alone (W=2): all programs <= %d over R,W,r,C,c, db%d", n, bound)}
+			return append(js, withPolicies(tier, []reg.Job{pm}, func(reg.Job) bool { return true })...)
 		},
 	})
 }
